@@ -461,3 +461,9 @@ def run(prog, chk):
                   "definition (all units)", primary=False, floor=200)
     if memrules.declaration_parameter_agreement(prog, r9) < 200:
         raise Broken("fewer than 200 declaration/definition pairs")
+
+    r10 = chk.rule("R10-capacity-is-allocation-count", "a non-constant `capacity` stored by a function that allocates is the element "
+                   "count of a block it allocates (lists, serialisation buffers): insertions trust it when deciding whether to grow",
+                   primary=False, floor=4)
+    if memrules.capacity_matches_allocation(prog, r10) < 4:
+        raise Broken("fewer than 4 capacity stores found in value.c")
